@@ -4,6 +4,7 @@ import (
 	"encoding/json"
 	"fmt"
 	"os"
+	"os/exec"
 	"sort"
 	"strings"
 	"sync"
@@ -25,6 +26,82 @@ import (
 func init() {
 	register("C16", c16)
 	Workers["C16"] = c16Worker
+	RacePass["C16"] = c16RacePass
+}
+
+// c16RacePass runs the scenario thread bodies free (no scheduler) many times; meant for a binary built with -race:
+// the race detector aborts the process (GORACE exitcode) on an unsynchronised access, which a cooperative scheduler
+// cannot see. It also checks exactly-once after a fault-free drain. Supporting run, not the deciding step.
+func c16RacePass() int {
+	fx.Quiet()
+	rc := 0
+	for si, sc := range c16Scenarios {
+		for it := 0; it < 150; it++ {
+			n := newC16Node(false)
+			var wg sync.WaitGroup
+			var mu sync.Mutex
+			accepted := map[string]string{}
+			rnd := uint32(si*7919 + it*104729 + 1)
+			next := func() uint32 { // xorshift, only used from the writer goroutine
+				rnd ^= rnd << 13
+				rnd ^= rnd >> 17
+				rnd ^= rnd << 5
+				return rnd
+			}
+			n.cas.FailW = func(int, []byte) bool { return next()%11 == 0 }
+			n.anchor.choose = func() bool { return next()%7 == 0 }
+			for ti, sub := range sc.Subs {
+				ti, sub := ti, sub
+				wg.Add(1)
+				go func() {
+					defer wg.Done()
+					for k, e := range sub {
+						uid := fmt.Sprintf("%s#%d.%d", e.Sym, ti, k)
+						if err := n.addUID(e.Sym, uid, e.V); err == nil {
+							mu.Lock()
+							accepted[uid] = e.Sym
+							mu.Unlock()
+						}
+					}
+				}()
+			}
+			wg.Add(1)
+			go func() {
+				defer wg.Done()
+				for t := 0; t < sc.Tick+2; t++ {
+					n.writer.VerifStep(next()%2 == 0)
+				}
+			}()
+			wg.Wait()
+			n.cas.FailW, n.anchor.choose = nil, nil
+			for i := 0; i < len(accepted)+3 && n.queue.Len() > 0; i++ {
+				n.writer.VerifStep(true)
+			}
+			alpha := c16Alphabet()
+			cnt := map[string]int{}
+			for _, b := range c16Successful(n) {
+				seen := map[string]bool{}
+				for _, id := range b.ids {
+					it := alpha[strings.SplitN(id, "#", 2)[0]]
+					if it.exp || seen[it.suffix] {
+						continue
+					}
+					seen[it.suffix] = true
+					cnt[id]++
+				}
+			}
+			for id, sym := range accepted {
+				if alpha[sym].exp {
+					continue
+				}
+				if cnt[id] != 1 {
+					fmt.Printf("FREE-RUN scenario=%s iteration=%d operation %s anchored %d times\n", sc.Name, it, id, cnt[id])
+					rc = 1
+				}
+			}
+		}
+	}
+	return rc
 }
 
 // ---------------------------------------------------------------- reference model (DESIGN appendix A.2)
@@ -1032,6 +1109,29 @@ func c16(r *hx.Run) {
 		c16Concurrent(r)
 	}
 	r.Extra["concurrent_wall_s"] = time.Since(t1).Seconds()
+	// supporting free-running pass under the race detector (thorough tier; binary built by run.sh)
+	if bin := os.Getenv("VERIF_RACE_BIN"); bin != "" && r.Only == "" {
+		cmd := exec.Command(bin, "--race-pass", "C16")
+		cmd.Env = append(os.Environ(), "GORACE=exitcode=66 halt_on_error=1")
+		out, err := cmd.CombinedOutput()
+		code := 0
+		if ee, ok := err.(*exec.ExitError); ok {
+			code = ee.ExitCode()
+		} else if err != nil {
+			code = -1
+		}
+		r.Extra["race_pass_exit_code"] = code
+		r.Extra["race_pass_executions"] = len(c16Scenarios) * 150
+		switch code {
+		case 0:
+		case 66:
+			r.Violation("supporting:data-race", "racepass", "the free-running pass under the race detector reported a data race:\n"+hx.Trunc(string(out), 2500), map[string]interface{}{"output": hx.Trunc(string(out), 6000)})
+		case 1:
+			r.Violation("supporting:free-running-exactly-once", "racepass", "free-running pass: "+hx.Trunc(string(out), 1500), nil)
+		default:
+			panic(fmt.Sprintf("race pass failed to run (exit %d): %s", code, hx.Trunc(string(out), 800)))
+		}
+	}
 	r.Assumptions = append(r.Assumptions,
 		"scheduling points are the synchronisation operations (RWMutex, atomic) and the harness-owned CAS / anchor calls; unsynchronised data accesses and weak-memory effects are not modelled (a free-running -race pass is a separate supporting run, not part of this verdict)",
 		"MemQueue is volatile: a crash is explored as a step that returns an error at that point (CAS / anchor write failures)",
